@@ -47,7 +47,7 @@ CLAIMS = {
          "with the result under a reference order, on symbolic data where data matters (import paths, union names, constant names). Solved sites: Cache.Imports and the randdata header built from it, "
          "Struct.setImplements, fetchEnumsAndUnions (diamond import graph), fetchPkgEnums' final loop, PkgSelector.findPackage, NewLinker/OutputFiles/GetOutput, dart.Generate (file name -> text). "
          "A static scan of all 17 map-range sites of the non-test gomacro packages runs on every check; a site without harness or recorded argument is reported INCONCLUSIVE. Argued, not solved: populateTypes, "
-         "cmd Config.run, the two httpapi import walks. For dart.Generate and NewLinker the quick tier varies one map range at a time (thorough: full product). Iteration orders are case-split exhaustively, "
+         "the two httpapi import walks. For dart.Generate and NewLinker the quick tier varies one map range at a time (thorough: full product). Iteration orders are case-split exhaustively, "
          "the solver decides the data-dependent branches (string orderings). NOT decided: pointer-value and visiting-order sources (argued: no %p verb, Source sorted by position), cross-process runs, formatter output. Also: the constants of an enum spread over two files of a real source package parsed in both orders; the static scan also lists goroutine starts (an uncovered one is reported INCONCLUSIVE, not decided). The scan also lists run-dependent value sources (hash/maphash, math/rand, time.Now, os.Getpid in generator code): INCONCLUSIVE when present. A diamond of real source packages with a foreign constant of an enum's type under every order of the import walk.",
          "DESIGN.md section 4 (C07)", ""),
  "C18": ("Decides the crash mechanisms the statement names, on the functions that contain them; the assertion is always 'no Go runtime error outcome' (explicit panics with a string/error are diagnostics). "
@@ -147,10 +147,29 @@ PENDING = "no check registered yet: harnesses for this property are not built/va
 
 checks = []
 na = []
+# additions of the seventh seeding round (one harness per input class; see DESIGN.md section 0b)
+ROUND7 = {
+ "C05": "Also decided by execution: the generated SelectAllXs/ScanXs/ScanX functions of a primary or link table with a jsonb column (5 column types) run in the engine against an in-memory stand-in of database/sql holding 2 (3) symbolic rows; the items returned must be deeply equal to the rows stored (HC05_execSelectAll).",
+ "C07": "Also: cmd.Config.run itself is executed on 2 (3) real source files with TypeScript and Dart actions, under every order of the Config map and every completion order of the goroutines it starts (thorough: <=1 preemption), against the sequential run in sorted file order (HC07_configRun; formatters absent); httpapi.ParseEcho on a handler reading 2..3 (4) query parameters, names drawn with repetition, under every map order (HC07_echoQueryParams).",
+ "C08": "Also: exactly one CREATE TABLE per struct of the analysed file, for a table of 1..3 (4) distinct fields in any order from a catalogue including Valid bool, a foreign key and a nullable wrapper (HC08_everyStructIsATable).",
+ "C09": "Also: 2..3 structs embedding one base struct of 1..3 (6) symbolic fields, analysed together in three orders, each compared with encoding/json's flattening rule (HC09_sharedBase).",
+ "C10": "Also: a diamond of four real packages in which importers declare or not constants typed with the owner's enum (5 import shapes, names sorting before/after the owner, 0..3 owner members): the enum exists iff its own package declares constants, with exactly those (HC10_foreignTypedConstants; a genuine defect found there was repaired).",
+ "C11": "Also: module paths of 1..4 elements, analysed package at 3 depths, union declared in the tree-root package, a parent, a sibling or a child, reached directly or through an intermediate package (HC11_unionAcrossTree; sibling modules sharing a partial element name are outside the class).",
+ "C13": "Also: method handlers for every combination of holder kind (value/pointer parameter, local value, local pointer) and receiver kind, 1..2 controllers (HC13_methodReceivers).",
+ "C15": "Also: structs with 1..2 embedded components (value or pointer) over 4 base structs, generated functions executed with symbolic draws (HC15_execEmbedded).",
+ "C16": "Also: type ( ... ) groups of 2..3 structs with a block-level comment (none, plain, SQL directive, QUERY directive) and per-struct comments, through the real parser: each table carries exactly the directives of its own declaration (HC16_groupedDeclarations).",
+ "C17": "The packages planned for the engine's packages.Load model are built by the real parser and type checker (Syntax, Fset, Types); the catalogue includes generated files with a //line directive above or below the package clause.",
+ "C18": "Also: real source files with 1..2 top-level alias declarations (10 aliased types, 3 names, position, grouped, used, chained) through NewAnalysisFromFile and the typescript, dart, randdata and gounions generators (HC18_*AliasDeclarations).",
+ "C19": "Declaration contents may be empty (0..1 bytes).",
+ "C20": "Also: two zero caches used one after the other in one process, the set of installed tools (symbolic) changing in between: the second cache behaves according to the tools present now (HC20_freshCache; sync.Once/OnceValue/OnceFunc are modelled as a lock around the first call).",
+}
+
 for p in props:
     pid = p["id"]
     if pid in CLAIMS:
         text, ref, extra = CLAIMS[pid]
+        if pid in ROUND7:
+            text = text + " " + ROUND7[pid]
         checks.append({
             "property_id": pid,
             "quick_cmd": "bin/vcheck run --property %s --tier quick" % pid,
